@@ -336,6 +336,12 @@ class Program:
             self.impls_by_trait[im["trait"]].append(im)
         self._cbcache = {}
         self._sites = None
+        self._inst = None
+        self.trait_impl_methods_full = defaultdict(list)
+        for im in self.impls:
+            for m in im["methods"]:
+                self.trait_impl_methods_full[(im["trait"], m["name"])].append((im, m["def"]))
+        self.impl_heads = set(ty_head(im["self"]) for im in self.impls)
         self._edges = None
         self._local_type_names = None
 
@@ -376,9 +382,15 @@ class Program:
             tr = info.get("trait")
             if tr:
                 name = decl.split("::")[-1]
-                for d in self.trait_impl_methods.get((tr, name), []):
-                    if d in self.bodies:
-                        out.add(d)
+                allowed = self._allowed_impl_heads(body, info) if rk == "unresolved" else None
+                for im, d in self.trait_impl_methods_full.get((tr, name), []):
+                    if d not in self.bodies:
+                        continue
+                    if allowed is not None:
+                        h = ty_head(im["self"])
+                        if not (h in allowed or re.match(r"^[A-Z][A-Za-z0-9]*$", im["self"])):
+                            continue
+                    out.add(d)
                 # default body of a local trait
                 if decl in self.bodies:
                     out.add(decl)
@@ -394,6 +406,78 @@ class Program:
                 for cb in self._callbacks_for(tr, self_ty):
                     out.add(cb)
         return out
+
+    # ---- instantiation sets of type parameters (context-insensitive, whole program)
+    def type_params(self, body):
+        return [g for g in body.d.get("generics", []) if not g.startswith("'") and not g.startswith("<")]
+
+    def parent_fn(self, bid):
+        while "::{closure#" in bid:
+            bid = bid[:bid.rindex("::{closure#")]
+        return bid
+
+    def inst(self):
+        """inst[body id][type param] = set of type strings the parameter is instantiated with
+        at call sites anywhere in the crate (transitively through generic callers)"""
+        if self._inst is not None:
+            return self._inst
+        inst = defaultdict(lambda: defaultdict(set))
+        deps = []  # (callee, param, caller, caller_param)
+        for b in self.bodies.values():
+            bparams = self.type_params(self.bodies.get(self.parent_fn(b.id), b))
+            bowner = self.parent_fn(b.id)
+            for bi, t in b.calls():
+                decl, res, info = callee_of(t)
+                if info is None or info.get("rk") != "item" or not info.get("rlocal") or res not in self.bodies:
+                    continue
+                gen = self.bodies[res].d.get("generics", [])
+                args = info.get("rga") or info.get("ga") or []
+                if len(gen) != len(args):
+                    continue
+                for name, arg in zip(gen, args):
+                    if name.startswith("'") or name.startswith("<"):
+                        continue
+                    inst[res][name].add(arg)
+                    for q in bparams:
+                        if re.search(r"(^|[^A-Za-z0-9_])%s($|[^A-Za-z0-9_])" % re.escape(q), arg):
+                            deps.append((res, name, bowner, q))
+        changed = True
+        n = 0
+        while changed and n < 50:
+            changed = False
+            n += 1
+            for (f, name, caller, q) in deps:
+                src = inst[caller].get(q)
+                if src:
+                    before = len(inst[f][name])
+                    inst[f][name] |= src
+                    if len(inst[f][name]) != before:
+                        changed = True
+        self._inst = inst
+        return inst
+
+    def _allowed_impl_heads(self, body, info):
+        """heads of local impl self types an unresolved trait call in `body` can dispatch to,
+        given what the type parameters mentioned in its self type are instantiated with;
+        None = unknown (fall back to the class hierarchy)"""
+        selfty = info.get("self") or ""
+        owner = self.bodies.get(self.parent_fn(body.id), body)
+        params = [q for q in self.type_params(owner) if re.search(r"(^|[^A-Za-z0-9_])%s($|[^A-Za-z0-9_])" % re.escape(q), selfty)]
+        if not params:
+            return None
+        inst = self.inst()
+        strings = []
+        for q in params:
+            s = inst.get(owner.id, {}).get(q)
+            if not s:
+                return None
+            strings.extend(s)
+        # an instantiation that is itself an uninstantiated parameter of a root: unknown
+        allowed = set()
+        for h in self.impl_heads:
+            if h and any(h in st for st in strings):
+                allowed.add(h)
+        return allowed
 
     def _callbacks_for(self, trait, self_ty):
         key = (trait, self_ty)
